@@ -128,9 +128,12 @@ fn cnf_checks(ctx: &mut Ctx, rng: &mut Rng, cl: &Clauses) {
             ctx.violation("cnf.is_sat_partial", "reports satisfied although an extension falsifies the CNF",
                 json!({"assignment": asg, "input": info}));
         }
-        if !taut && got != all_ext {
-            ctx.violation("cnf.is_sat_partial", "disagrees with 'every extension satisfies' on a CNF without tautological clauses",
-                json!({"assignment": asg, "got": got, "input": info}));
+        // documented contract: "true if the partial model implies the CNF", i.e. every extension
+        // satisfies it -- also when a clause holds only because it contains x and !x over an
+        // unassigned x (narrowed S7, finding F15)
+        if got != all_ext {
+            ctx.violation("cnf.is_sat_partial", "disagrees with 'the partial model implies the CNF' (every extension satisfies it)",
+                json!({"assignment": asg, "got": got, "tautological_clause_present": taut, "input": info}));
         }
     }
     if ctx.wants_sample() {
